@@ -661,6 +661,22 @@ def judge(ctx, idx, case):
         except Exception as e:
             ctx.count("corpus.load_raised.%s" % type(e).__name__)
         judged = 1
+    if case["mode"] == "scenario" and not problems and idx % 4 == 0:
+        # a long-lived document that keeps receiving *record objects* of short-lived documents as formal arguments: what it stores is
+        # the qualified name of the record it was given -- whatever lived at that address before
+        col = getattr(ctx, "collector", None)
+        if col is None or len(col._records) > 1500:
+            col = ctx.collector = pm.ProvDocument()
+        short = pm.ProvDocument()
+        ns = Namespace("sl", "http://short-lived.example/%d/" % idx)
+        e1, e2 = short.entity(ns["generated"]), short.entity(ns["used-%d" % (idx % 7)])
+        rel = col.derivation(e1, e2)
+        got = {a.localpart: [v.uri for v in vs] for a, vs in rel._attributes.items() if a.uri.startswith(PROVNS) and vs}
+        ctx.count("collector.record_objects_of_short_lived_documents")
+        if got.get("generatedEntity") != [e1.identifier.uri] or got.get("usedEntity") != [e2.identifier.uri]:
+            problems.append({"collector": "a relation given two record objects of a short-lived document stores %s, their identifiers are <%s> and <%s>"
+                             % (got, e1.identifier.uri, e2.identifier.uri)})
+        del short, e1, e2
     reports = [(what, wit) for mon, what, wit in hub.drain() if mon == "NF"]
     if problems:
         ctx.violation(idx, "record state or refusal differs from the normal-form model: %s" % str(problems[0])[:300], case, {"problems": problems})
